@@ -10,7 +10,7 @@ import sys
 import tempfile
 from concurrent.futures import ThreadPoolExecutor
 
-from common import Check, coq_eval, parse_defs, parse_nlist, cstr, clist, cbool, REPO, ROOT, PY
+from common import Check, coq_eval, parse_defs, parse_nlist, cstr, clist, cbool, copt, REPO, ROOT, PY
 
 HERE = os.path.dirname(os.path.abspath(__file__))
 FILES = ['/src/foo-a.h', '/src/foo-b.h', '/src/sub/foo-c.h', '/src/Foo-d.h']
@@ -65,13 +65,15 @@ def gen_world(rng, k):
             decls.append(dict(k='func', name='foo_obj_' + m, ret='void', params=[['self', 'FooObj*']], **at()))
     # a boolean property with several accessor candidates (get_, is_, bare name), declared in whatever files
     bprops = ''
-    if rng.random() < 0.7:
+    if rng.random() < 0.9:
         bflags = rng.choice([1, 3])
-        bprops = '<property name="active" type="gboolean" flags="%d"/>' % bflags
-        for acc in rng.sample(['get_active', 'is_active', 'active'], rng.randint(2, 3)):
+        bname = rng.choice(['active', 'active', 'is-visible'])
+        bn = bname.replace('-', '_')
+        bprops = '<property name="%s" type="gboolean" flags="%d"/>' % (bname, bflags)
+        for acc in rng.sample(['get_' + bn, 'is_' + bn, bn], rng.randint(2, 3)):
             decls.append(dict(k='func', name='foo_obj_' + acc, ret='gboolean', params=[['self', 'FooObj*']], **at()))
         if bflags == 3 and rng.random() < 0.5:
-            decls.append(dict(k='func', name='foo_obj_set_active', ret='void', params=[['self', 'FooObj*'], ['v', 'gboolean']], **at()))
+            decls.append(dict(k='func', name='foo_obj_set_' + bn, ret='void', params=[['self', 'FooObj*'], ['v', 'gboolean']], **at()))
     dump = ('<?xml version="1.0"?><dump><class name="FooObj" get-type="foo_obj_get_type" parents="GObject">'
             + ''.join('<property name="%s" type="gint" flags="3"/>' % p for p in rng.sample(['zeta', 'alpha', 'Beta', 'a-b'], rng.randint(0, 3)))
             + bprops
@@ -180,7 +182,7 @@ def main(tier, seed):
                        'typedef/struct/forward declaration of one tag is not varied (it is the order of the C source)',
                        'interpreter-level determinism (hash seeds, pickling of the cache) is tested in fresh processes, not proved',
                        'dependency GIRs are the three stub files; cold and warm cache runs use a private XDG_CACHE_HOME']
-    ck.prove([], models=['Model/C16.vo'])
+    ck.prove([], models=['Model/C16.vo', 'Model/C16G.vo'])
     import xml.etree.ElementTree as ET
     rng = random.Random(seed)
     nworlds = 6 if tier == 'quick' else 40
@@ -307,9 +309,33 @@ def main(tier, seed):
                 if len(sigs) > 1:
                     seqs.append(sigs)
             seqs.append([(1, el.get('name')) for el in root.findall(S_CORE + 'include')])
+        # which accessor the scanner elected as getter of the boolean property, against Model.C16G.elect
+        gcases = []
+        for wi in sorted(base):
+            if base[wi] is None:
+                continue
+            root = ET.fromstring(base[wi])
+            for cls in root.iter(S_CORE + 'class'):
+                meths = [m.get('name') for m in cls.findall(S_CORE + 'method') if m.get('introspectable') != '0']
+                for pr in cls.findall(S_CORE + 'property'):
+                    t = pr.find(S_CORE + 'type')
+                    if t is None or t.get('name') != 'gboolean' or pr.get('introspectable') == '0':
+                        continue
+                    readable = pr.get('readable') != '0'
+                    writable = pr.get('writable') == '1'
+                    nm = pr.get('name').replace('-', '_')
+                    setter = ('set_' + nm) if (writable and pr.get('construct-only') != '1') else None
+                    gcases.append((readable, writable, nm, setter, meths, pr.get('getter')))
+        gitems = ['(%s, %s, %s, %s, %s, %s)' % (cbool(r_), cbool(w_), cstr(nm), copt(st, cstr), clist([cstr(m) for m in ms]), copt(g_, cstr))
+                  for r_, w_, nm, st, ms, g_ in gcases]
         items = [clist(['{| n_alias := %s; n_name := %s; n_body := [] |}' % (cbool(a == 0), cstr(n)) for a, n in sq]) for sq in seqs]
         text = '\n'.join(['From Coq Require Import List NArith Bool.', 'From GIV.Lib Require Import Regex Str.',
-                          'From GIV.Model Require Import C16.', 'Import ListNotations.', 'Local Open Scope N_scope.',
+                          'From GIV.Model Require Import C16 C16G.', 'Import ListNotations.', 'Local Open Scope N_scope.',
+                          'Definition gcases : list (bool * bool * str * option str * list str * option str) := [%s].' % ';\n'.join(gitems),
+                          'Definition oseq (a b : option str) := match a, b with Some x, Some y => str_eqb x y | None, None => true | _, _ => false end.',
+                          'Definition gbad := Eval vm_compute in map (fun p => N.of_nat (fst p)) (filter (fun p => let \'(r, w, nm, st, ms, g) := snd p in '
+                          'negb (oseq (elect (getter_candidates None r w true nm) st ms None) g)) (combine (seq 0 (length gcases)) gcases)).',
+                          'Print gbad.',
                           'Definition seqs : list (list node) := [%s].' % ';\n'.join(items),
                           'Definition same (a b : list node) := forallb (fun p => str_eqb (n_name (fst p)) (n_name (snd p)) && Bool.eqb (n_alias (fst p)) (n_alias (snd p))) (combine a b).',
                           'Definition unsorted := Eval vm_compute in map (fun p => N.of_nat (fst p)) (filter (fun p => negb (same (isort node_leb (snd p)) (snd p))) (combine (seq 0 (length seqs)) seqs)).',
@@ -319,6 +345,12 @@ def main(tier, seed):
             ck.tie_broken('correspondence', 'case file does not evaluate:\n' + out[-2000:])
         else:
             bad = parse_nlist(parse_defs(out)['unsorted'])
+            gbad = parse_nlist(parse_defs(out)['gbad'])
+            ck.extra['getter_elections_checked'] = len(gcases)
+            if gbad:
+                r_, w_, nm, st, ms, g_ = gcases[gbad[0]]
+                ck.tie_broken('correspondence', 'the getter the scanner paired with a boolean property is not the one Model.C16G.elect gives '
+                              'for %d properties' % len(gbad), dict(property=nm, readable=r_, writable=w_, methods=ms, getter_in_gir=g_))
             ck.extra['sibling_sequences_checked'] = len(seqs)
             ck.extra['traces_validated_against_impl'] = len(seqs)
             if bad:
